@@ -30,7 +30,7 @@ def plan(tier):
     return {"cases": 20000 if tier == "quick" else 300000, "shards": 16, "case_timeout": 20, "shard_timeout": 3000,
             "min_nontrivial": 200 if tier == "quick" else 1500,
             "min_counters": {"rows_compared": 5000, "elseif_cases": 500, "both_sides_true": 100,
-                             "the_checked": 1000, "exactly_checked": 1000, "an_after_the_checked": 1000}}
+                             "the_checked": 1000, "exactly_checked": 1000, "an_after_the_checked": 1000, "correlated_nested_selections": 1000}}
 
 
 def setup(ctx):
@@ -179,6 +179,25 @@ def both_sides_true(spec, m, objs):
     return False
 
 
+def correlated_nested_selection(m, objs, C):
+    """a nested query that selects an attribute of a variable of the enclosing query: one row per satisfying
+    assignment of the enclosing variables - the nested query must not make the enclosing query enumerate its variable
+    a second time"""
+    from krrood.entity_query_language.entity import entity, let, set_of
+    from krrood.entity_query_language.quantify_entity import an
+    xs, ys = list(objs[:3]), list(objs[-3:])
+    x, y = let(m.P, xs, name="x"), let(m.P, ys, name="y")
+    want = Counter((id(p), id(q)) for p in dict.fromkeys(xs) for q in dict.fromkeys(ys) if q.a == p.b and p.a >= 0)
+    try:
+        got = Counter((id(r[x]), id(r[y])) for r in an(set_of((x, y), y.a == an(entity(x.b)), x.a >= 0)).evaluate())
+    except Exception as e:
+        return [f"y.a == an(entity(x.b)) raised {type(e).__name__}: {e}"[:200]]
+    C["correlated_nested_selections"] += 1
+    if got != want:
+        return [f"set_of((x, y), y.a == an(entity(x.b)), x.a >= 0): {sum(got.values())} rows ({len(got)} distinct) for {sum(want.values())} satisfying assignments"]
+    return []
+
+
 def run(spec, ctx):
     from krrood.entity_query_language.quantify_entity import an, the
     from krrood.entity_query_language.result_quantification_constraint import Exactly, AtMost, AtLeast
@@ -259,6 +278,8 @@ def run(spec, ctx):
                 problems.append(f"an(quantification={cons!r}) -> {res}/{k}, true count {n}")
             if not ok and res == "ok":
                 problems.append(f"an(quantification={cons!r}) accepted although the true count is {n}")
+    if not problems and len(objs) >= 2:
+        problems.extend(correlated_nested_selection(m, objs, C))
     if problems:
         C["fail"] += 1
         key = None
